@@ -79,24 +79,28 @@ pub fn predicate_pushdown_rules() -> Vec<Rewrite> { vec![
         "(join ?type (and ?cond1 ?cond2) ?left ?right)" =>
         "(join ?type ?cond2 (filter ?cond1 ?left) ?right)"
         if not_depend_on("?cond1", "?right")
+        if all_depend_on("?cond1", "?left")
         if can_filter_left_input("?type")
     ),
     rw!("pushdown-join-condition-left-1";
         "(join ?type ?cond1 ?left ?right)" =>
         "(join ?type true (filter ?cond1 ?left) ?right)"
         if not_depend_on("?cond1", "?right")
+        if all_depend_on("?cond1", "?left")
         if can_filter_left_input("?type")
     ),
     rw!("pushdown-join-condition-right";
         "(join ?type (and ?cond1 ?cond2) ?left ?right)" =>
         "(join ?type ?cond2 ?left (filter ?cond1 ?right))"
         if not_depend_on("?cond1", "?left")
+        if all_depend_on("?cond1", "?right")
         if can_filter_right_input("?type")
     ),
     rw!("pushdown-join-condition-right-1";
         "(join ?type ?cond1 ?left ?right)" =>
         "(join ?type true ?left (filter ?cond1 ?right))"
         if not_depend_on("?cond1", "?left")
+        if all_depend_on("?cond1", "?right")
         if can_filter_right_input("?type")
     ),
     rw!("pushdown-filter-apply-left";
